@@ -1084,6 +1084,9 @@ func TestC16(t *testing.T) {
 				} else {
 					reqCtx, cancelReqs := context.WithCancel(env2.Ctx)
 					tr := &c16Transport{env: env2, ctx: reqCtx, read: env2.Reg.ReadRouter(env2.Ctx), write: env2.Reg.WriteRouter(env2.Ctx), g: g}
+					if idx%4 == 0 {
+						m.rollbackRetryPhase(tr, written)
+					}
 					m.transportPhase(tr, written)
 					cancelReqs()
 					g.Close()
@@ -1116,5 +1119,84 @@ func TestC16(t *testing.T) {
 			verdict = "violation"
 		}
 		run.end(idx, "", verdict)
+	}
+}
+
+// rollbackRetryPhase: a write request whose transaction is rolled back AFTER
+// its names were mapped (a SQLite trigger makes the relationship insert fail),
+// followed by a successful retry of the same names on the same server: every
+// read must return the written strings. Leaves the relationship table as it
+// found it (the phase deletes what it wrote).
+func (m *c16Mon) rollbackRetryPhase(tr *c16Transport, written []*Tup) {
+	run := m.run
+	conn, err := tr.env.Reg.PopConnection(tr.env.Ctx)
+	if err != nil {
+		return
+	}
+	sub := written
+	if len(sub) > 24 {
+		sub = sub[:24]
+	}
+	ns := sub[0].Namespace
+	const poisonRel = "verif-poison-relation"
+	if err := conn.RawQuery("CREATE TRIGGER verif_poison BEFORE INSERT ON keto_relation_tuples WHEN NEW.relation = '" + poisonRel + "' BEGIN SELECT RAISE(ABORT, 'verif: injected statement failure'); END").Exec(); err != nil {
+		run.inconclusive("C16 rollback-retry: cannot create trigger: " + err.Error())
+		return
+	}
+	patch := func(ts []*Tup, action string) (int, string) {
+		var deltas []map[string]any
+		for _, t := range ts {
+			deltas = append(deltas, map[string]any{"action": action, "relation_tuple": t})
+		}
+		b, _ := json.Marshal(deltas)
+		st, body, pt := serveHTTP(tr.ctx, tr.write, "PATCH", "/admin/relation-tuples", string(b))
+		if pt != "" {
+			return 0, pt
+		}
+		return st, body
+	}
+	poisoned := append(append([]*Tup(nil), sub...), tupID(ns, "verif-poison-object", poisonRel, "verif-poison-subject"))
+	st, body := patch(poisoned, "insert")
+	_ = conn.RawQuery("DROP TRIGGER verif_poison").Exec()
+	run.eval(1)
+	if st >= 200 && st < 300 {
+		run.inconclusive("C16 rollback-retry: the poisoned write was not refused")
+		_, _ = patch(poisoned, "delete")
+		return
+	}
+	run.count("rollback_retry_poisoned_writes_refused", 1)
+	if got, e := tr.listREST(url.Values{"namespace": {ns}}, 100); e == "" && len(got) != 0 {
+		m.violate("rollback-retry", "C16:rollback-retry:failed-write-left-relationships",
+			fmt.Sprintf("a refused PATCH (status %d) left %d relationships behind", st, len(got)), map[string]any{"body": trunc(body, 200)})
+	}
+	// retry the same names without the failing entry
+	if st, body := patch(sub, "insert"); st != 204 {
+		m.violate("rollback-retry", fmt.Sprintf("C16:rollback-retry:retry-refused:%d", st),
+			"the retry of the same relationships after a rolled-back write was refused: "+trunc(body, 200), nil)
+		return
+	}
+	nss := map[string]bool{}
+	for _, t := range sub {
+		nss[t.Namespace] = true
+	}
+	var got []*Tup
+	for n := range nss {
+		g, e := tr.listREST(url.Values{"namespace": {n}}, 50)
+		if e != "" {
+			m.violate("rollback-retry", "C16:rollback-retry:list-error", "list after the retry failed: "+e, nil)
+			_, _ = patch(sub, "delete")
+			return
+		}
+		got = append(got, g...)
+	}
+	run.eval(1)
+	if class, detail := multisetDiff(sub, got); class != "" {
+		m.violate("rollback-retry", "C16:rollback-retry:"+class,
+			"after a write was rolled back and the same relationships were written again, list does not return the written strings", detail)
+	} else {
+		run.count("rollback_retry_roundtrips_ok", 1)
+	}
+	if st, body := patch(sub, "delete"); st != 204 {
+		run.inconclusive("C16 rollback-retry: cleanup failed: " + trunc(body, 200))
 	}
 }
